@@ -748,6 +748,48 @@ class _CanonExpr(ast.NodeTransformer):
         return node
 
 
+def expand_expression_methods(prog: Program, cls: ClassInfo, e: ast.expr, receivers: set[str], depth: int = 0) -> ast.expr:
+    """Replace calls `r.m(args)` — r one of `receivers` (texts of expressions known to denote instances of `cls`), m a
+    method of `cls` whose normalised body is a single `return <expr>` — by that expression with self and the parameters
+    substituted.  Used where a rule reads a predicate that a refactoring may have moved into a method of the stored
+    object (`storage.is_due(step)`)."""
+    if depth > 2:
+        return e
+
+    class T(ast.NodeTransformer):
+        def visit_Call(self, node):
+            self.generic_visit(node)
+            f = node.func
+            if isinstance(f, ast.Attribute) and norm(f.value) in receivers and not any(isinstance(a, ast.Starred) for a in node.args):
+                m = prog.lookup_method(cls, f.attr)
+                if m is not None and m.kind == "method" and eligible(m):
+                    body = flat(prog, m, cls).body()
+                    body = [b for b in body if not (isinstance(b, ast.Expr) and isinstance(b.value, ast.Constant))]
+                    if len(body) == 1 and isinstance(body[0], ast.Return) and body[0].value is not None:
+                        params = [a.arg for a in m.node.args.args]
+                        mp: dict[str, ast.expr] = {params[0]: f.value} if params else {}
+                        for pn, av in zip(params[1:], node.args):
+                            mp[pn] = av
+                        for kw in node.keywords:
+                            if kw.arg:
+                                mp[kw.arg] = kw.value
+                        defaults = m.node.args.defaults
+                        for pn, dv in zip(params[len(params) - len(defaults):], defaults):
+                            mp.setdefault(pn, dv)
+                        if all(pn in mp for pn in params):
+                            class Sub(ast.NodeTransformer):
+                                def visit_Name(self, n2):
+                                    if isinstance(n2.ctx, ast.Load) and n2.id in mp:
+                                        return copy.deepcopy(mp[n2.id])
+                                    return n2
+
+                            out = Sub().visit(copy.deepcopy(body[0].value))
+                            return expand_expression_methods(prog, cls, out, receivers, depth + 1)
+            return node
+
+    return T().visit(copy.deepcopy(e))
+
+
 # --------------------------------------------------------------------------- public helper
 _cache: dict[tuple, FuncInfo] = {}
 # module-level functions that are semantic anchors of rules (summarised, not seen through)
